@@ -372,6 +372,27 @@ def step (st : St) (toks : List String) : St × String :=
     | some ck, some t, some r, some n, some h =>
       (st, hexOrDash (Spec.vmessSealedHeader C ck (Spec.vmessAuthId C ck t r) n h))
     | _, _, _, _, _ => (st, "bad-op")
+  | "spec.ssu.eih.chain" :: rest =>
+    -- separate header ‖ identity headers of a datagram as a client with the key chain `password` must write them: header i is
+    -- AES under key i of (BLAKE3(key i+1)[..16] XOR session id ‖ packet id), all of them in clear behind the separate header
+    match kv rest "password", (kv rest "wire").bind unhexOrDash with
+    | some pw, some w =>
+      let psks := (pw.splitOn ":").filterMap Crypto.Base64.decode
+      match psks with
+      | [] => (st, "bad-op")
+      | k0 :: _ =>
+        let sidPid := C.aesDec k0 (w.take 16)
+        let rec go (i : Nat) : List Bytes → Option Nat
+          | a :: b :: rest =>
+            let want := C.aesEnc a (xorBytes ((C.blake3Hash b).take 16) sidPid)
+            if ((w.drop (16 + 16 * i)).take 16) == want then go (i + 1) (b :: rest) else some (i + 1)
+          | _ => none
+        (st, match go 0 psks with | none => "ok" | some hop => s!"differs-at-hop-{hop}")
+    | _, _ => (st, "bad-op")
+  | "e2e.udpfire" :: name :: _ =>
+    match st.objs.get? name with
+    | some (.world w) => ({ st with objs := st.objs.insert name (.world { w with udpSinceBase := true }) }, if !w.udp then "no-udp" else "done")
+    | _ => (st, "bad-op")
   | "spec.eih.chain" :: rest =>
     -- salt ‖ identity headers as a client with the key chain `password` must write them (SIP022 3.1.3)
     match (kv rest "cipher").bind Spec.cipherOf, kv rest "password", (kv rest "wire").bind unhexOrDash with
